@@ -470,7 +470,7 @@ func (vc *FuncVC) loopWrites(st *State, fr *Frame, lp *loop) *loopWriteSet {
 						scanFn(f, nil, false)
 					}
 				}
-				vc.funcValueWrites(ws, cc)
+				vc.funcValueWrites(ws, cc, lp, top)
 				return
 			}
 			if callee.Pkg != nil && callee.Pkg.Pkg == vc.eng.pkg.Types {
@@ -647,7 +647,7 @@ func (vc *FuncVC) classifyStore(ws *loopWriteSet, addr ssa.Value, lp *loop, top 
 	}
 }
 
-func (vc *FuncVC) funcValueWrites(ws *loopWriteSet, cc *ssa.CallCommon) {
+func (vc *FuncVC) funcValueWrites(ws *loopWriteSet, cc *ssa.CallCommon, lp *loop, top bool) {
 	w := vc.w
 	for _, a := range cc.Args {
 		pt, ok := a.Type().Underlying().(*types.Pointer)
@@ -664,7 +664,13 @@ func (vc *FuncVC) funcValueWrites(ws *loopWriteSet, cc *ssa.CallCommon) {
 			if isSyncType(f.Type()) {
 				continue
 			}
-			ws.writes = append(ws.writes, heapWrite{heap: fieldHeapName(nt, f), sort: arraySort(SInt, w.sortOf(f.Type())), whole: true})
+			hw := heapWrite{heap: fieldHeapName(nt, f), sort: arraySort(SInt, w.sortOf(f.Type()))}
+			if top && definedOutside(a, lp) {
+				hw.ref = a
+			} else {
+				hw.whole = true
+			}
+			ws.writes = append(ws.writes, hw)
 		}
 	}
 }
